@@ -11,7 +11,8 @@ The modelled design (built for real in vf/props/c03.py):
                                   sync read port (sync): rdata <= mem[rl], en = 1, not transparent      (ports "n"/"nt")
                                   sync read port (sync): tdata <= mem[d],  en = 1, transparent_for=(write port,)  ("t"/"nt")
                 obs = Cat(ClockSignal("sync"), ResetSignal("sync", allow_reset_less=True))   (combinational)
-  top         : defines the clock domains; core = wrap_top(Core(leaf = wrap_sub(Leaf)))
+                (cfg "order": "ab" = the module uses m.d.sync before m.d.other, "ba" = the other way round)
+  top         : defines the clock domains (optionally a third, empty one, "tgt": the target of the merging renamer DM); core = wrap_top(Core(leaf = wrap_sub(Leaf)))
 
 Semantics implemented here (the statement, literally):
   * an element changes only at the active edge of the clock of its (final) domain, or -- domains with asynchronous
@@ -36,13 +37,14 @@ KINDS = [(e, r) for e in ("pos", "neg") for r in ("sync", "async", "none")]
 # name -> (kind, {domain named by the wrapper: control input}) ; renamers: (kind, {old name: new name})
 WRAPPERS = {
     "R1": ("reset", {"sync": "r1"}),                     # short form ResetInserter(r1)
-    "R2": ("reset", {"sync": "r2", "other": "r2"}),      # one control for both domains
+    "R2": ("reset", {"sync": "r2", "other": "r2", "tgt": "r2"}),      # one control for every domain of the design
     "R3": ("reset", {"sync": "ra", "other": "rb"}),      # a distinct control per domain
     "E1": ("enable", {"sync": "e1"}),
-    "E2": ("enable", {"sync": "e2", "other": "e2"}),
+    "E2": ("enable", {"sync": "e2", "other": "e2", "tgt": "e2"}),
     "E3": ("enable", {"sync": "ea", "other": "eb"}),
     "DR": ("rename", {"sync": "other"}),
     "DX": ("rename", {"sync": "other", "other": "sync"}),      # swap (thorough tier only)
+    "DM": ("rename", {"sync": "tgt", "other": "tgt"}),         # merges two source domains into a third one
 }
 CONTROLS = ("r1", "r2", "ra", "rb", "e1", "e2", "ea", "eb")
 
@@ -66,7 +68,8 @@ class Model:
         self.cfg = cfg
         doms = cfg["doms"]
         two = "other" in doms
-        self.dom_names = ["sync"] + (["other"] if two else [])
+        self.dom_names = ["sync"] + (["other"] if two else []) + (["tgt"] if "tgt" in doms else [])
+        self.order = cfg.get("order", "ab")
         self.nclk = len(self.dom_names)
         self.clk_mask = (1 << self.nclk) - 1
         self.edge = {n: doms[n][0] for n in self.dom_names}
@@ -113,12 +116,49 @@ class Model:
                     for _c, frozen in e.rsts:
                         frozen.append(c)
         for w in list(cfg["sub"]) + list(cfg["top"]):
-            if WRAPPERS[w][0] == "rename" and not two:
-                raise ValueError("DomainRenamer needs the second domain")
+            if WRAPPERS[w][0] == "rename" and not all(t in doms for t in WRAPPERS[w][1].values()):
+                raise ValueError("DomainRenamer needs its target domain")
+        self.merge_flags = self._classify_renames(cfg)
         self.controls = [c for c in CONTROLS if c in used]
         self.obs_dom = self.wp.dom        # what the leaf calls "sync" is finally this domain (the ports never leave it)
         self.sync_inputs = ["d"] + self.controls + [f"rst_{n}" for n in self.dom_names if self.rkind[n] == "sync"]
         self.in_index = {n: k for k, n in enumerate(self.sync_inputs)}
+
+    def _classify_renames(self, cfg):
+        """which renames make statements of two domains of ONE module (or of parent and child) share a name
+        -> {final target domain: [coverage flags]} (antecedents for the vacuity guards only)"""
+        cur = {e.name: e.dom0 for e in self.elems if e.kind == "reg"}
+        where = {e.name: e.where for e in self.elems if e.kind == "reg"}
+        out = {}
+        steps = [("leaf", w) for w in cfg["sub"]] + [("all", w) for w in cfg["top"]]
+        for k, (scope, w) in enumerate(steps):
+            kind, named = WRAPPERS[w]
+            if kind != "rename":
+                continue
+            inside = [n for n in cur if scope == "all" or where[n] == "leaf"]
+            later = [WRAPPERS[x][1] for sc, x in steps[k + 1:] if WRAPPERS[x][0] == "rename"]
+
+            def final(d):
+                for mp in later:
+                    d = mp.get(d, d)
+                return d
+            for tgt in set(named.values()):
+                fl = []
+                for frag in ("core", "leaf"):
+                    srcs = {cur[n] for n in inside if where[n] == frag and named.get(cur[n], cur[n]) == tgt}
+                    if len(srcs) >= 2:
+                        fl.append(("rename_onto_populated_domain_same_module:" if tgt in srcs else "merge_two_sources_same_module:")
+                                  + self.order)
+                if scope == "all":
+                    core = {cur[n] for n in inside if where[n] == "core" and named.get(cur[n], cur[n]) == tgt}
+                    leaf = {cur[n] for n in inside if where[n] == "leaf" and named.get(cur[n], cur[n]) == tgt}
+                    if core and leaf and core != leaf and tgt not in (core | leaf):
+                        fl.append("merge_sources_of_parent_and_child")
+                if fl:
+                    out.setdefault(final(tgt), []).extend(fl)
+            for n in inside:
+                cur[n] = named.get(cur[n], cur[n])
+        return out
 
     # -- packing
     def initial(self):
@@ -225,10 +265,10 @@ class Model:
                             flags.append("reset_less_domain_edge")
                     else:
                         flags.append("inactive_edge")
-            if len(active) == 2:
+            if len(active) >= 2:
                 flags.append("simultaneous_active_edges")
             populated = {e.dom for e in self.elems}
-            if len(active) == 1 and len(populated) == 2:
+            if len(active) == 1 and len(populated) == 2 and active[0] in ("sync", "other"):
                 flags.append("other_domain_edge_only")
                 # a per-domain control of the idle domain is asserted while this domain's own control is not
                 mine, its = ("ra", "rb") if active[0] == "sync" else ("rb", "ra")
@@ -238,6 +278,7 @@ class Model:
                 if iv.get(mine) and not iv.get(its, 1):
                     flags.append("idle_domain_enable_control_deasserted")
             for dom in active:
+                flags += self.merge_flags.get(dom, ())
                 dr = self._dom_reset(dom, iv, lv)
                 if dr:
                     flags.append("domain_reset_at_edge")
